@@ -11,6 +11,7 @@ corpus case replayed on the real code), followed by the `_partial` theorem.
 -/
 import Cascette.Proofs.MemCache
 import Cascette.Proofs.DiskCache
+import Cascette.Proofs.CacheExt
 namespace Cascette.Props.C10
 open Cascette.Spec.CacheMap (Key Val Ref)
 open Cascette.Spec
@@ -166,6 +167,203 @@ theorem mem_bytes_le_entries_times_largest_partial (cfg : Config) (hmax : 1 ≤ 
   have := Nat.mul_le_mul_right B hlen
   omega
 
+/-! ### extension: the victims the model computes, the cleanup task, hit / miss figures -/
+
+section MemExt
+open Cascette.Model.CacheExt Cascette.Model.CacheExt.Mem
+
+/-- **the victim choice the model computes itself is one the policy allows** — in general, not on
+an example: after ANY history, for every policy (Lru, Lfu, Fifo, Random; ties included), the
+list `detVictims` yields for the pending put passes `victimsOk`, so `opOk` holds and the put is a
+step `mem_count_le_max` speaks about.  (`Driver/C10` runs exactly `autoVictims` for `ev=auto`.) -/
+theorem mem_auto_victims_allowed (cfg : Config) (ops : List Op) (k : Key) (v : Val) (short : Bool) :
+    let s := run cfg init ops
+    victimsOk cfg.policy (tick s).store (evictN cfg (tick s)) (autoVictims cfg s) = true ∧
+    opOk cfg s (.putTtl k v short (autoVictims cfg s)) = true ∧
+    opOk cfg s (.put k v (autoVictims cfg s)) = true := by
+  have hi := MemCache.inv_run cfg ops init MemCache.inv_init
+  have hv := CacheExt.detVictims_ok cfg.policy (tick (run cfg init ops)).store (evictN cfg (tick (run cfg init ops)))
+    (MemCache.inv_tick hi).nodup
+  refine ⟨hv, ?_, ?_⟩
+  · show (!evicts cfg (tick (run cfg init ops)) || victimsOk _ _ _ (autoVictims cfg (run cfg init ops))) = true
+    unfold autoVictims; rw [hv]; simp
+  · show (!evicts cfg (tick (run cfg init ops)) || victimsOk _ _ _ (autoVictims cfg (run cfg init ops))) = true
+    unfold autoVictims; rw [hv]; simp
+
+/-- **entry bound for what the driver computes** — no hypothesis on victim lists left: for every
+history of caller-level operations (puts carry no victim list; the model fills in `detVictims`;
+ticks of the cleanup task anywhere), every count-driven policy and `max_entries ≥ 1`, the number
+of entries is within the maximum after every operation. -/
+theorem mem_count_le_max_auto (cfg : Config) (hmax : 1 ≤ cfg.maxEntries) (hp : cfg.policy ≠ .ttl)
+    (ops : List AOp) :
+    (arun cfg xinit ops).s.count ≤ (cfg.maxEntries : Int) ∧
+    (arun cfg xinit ops).s.store.length ≤ cfg.maxEntries ∧
+    xrunOk cfg xinit (elabRun cfg xinit ops) = true := by
+  have hok := CacheExt.elabRun_ok cfg ops xinit MemCache.inv_init
+  have hc := CacheExt.count_xrun cfg hmax hp (elabRun cfg xinit ops) xinit MemCache.inv_init
+    (by show (0 : Int) ≤ _; omega) hok
+  have hi := CacheExt.inv_xrun cfg (elabRun cfg xinit ops) xinit MemCache.inv_init
+  rw [← CacheExt.arun_eq_xrun] at hc hi
+  refine ⟨hc, ?_, hok⟩
+  have := hi.count
+  omega
+
+/-- `mem_count_le_max` with ticks of the cleanup task anywhere in the history (any allowed victim
+lists) -/
+theorem memx_count_le_max (cfg : Config) (hmax : 1 ≤ cfg.maxEntries) (hp : cfg.policy ≠ .ttl)
+    (ops : List XOp) (hok : xrunOk cfg xinit ops = true) :
+    (xrun cfg xinit ops).s.count ≤ (cfg.maxEntries : Int) ∧ (xrun cfg xinit ops).s.store.length ≤ cfg.maxEntries := by
+  have hc := CacheExt.count_xrun cfg hmax hp ops xinit MemCache.inv_init (by show (0 : Int) ≤ _; omega) hok
+  have hi := CacheExt.inv_xrun cfg ops xinit MemCache.inv_init
+  refine ⟨hc, ?_⟩
+  have := hi.count
+  omega
+
+/-- the hypothesis of `memx_count_le_max` is met by a history with an eviction and cleanup ticks -/
+example :
+    let cfg : Config := { maxEntries := 2, maxBytes := none, policy := .fifo, defaultShort := false }
+    xrunOk cfg xinit [.base (.put 1 [1] []), .base (.putTtl 2 [2] true []), .cleanup, .base (.put 3 [3] []),
+      .base (.put 4 [4] [1]), .cleanup] = true := by decide
+
+/-- **get returns the latest value or nothing — with the cleanup task running**: as
+`mem_get_latest_or_none`, for histories with ticks of the background cleanup task anywhere. -/
+theorem memx_get_latest_or_none (cfg : Config) (ops : List XOp) (k : Key) :
+    (xstep cfg (xrun cfg xinit ops) (.base (.get k))).2 = .base (.val none) ∨
+    (xstep cfg (xrun cfg xinit ops) (.base (.get k))).2 =
+      .base (.val (CacheMap.run CacheMap.empty (ops.map (absXOp cfg)) k)) := by
+  have href := MemCache.ref_tick (CacheExt.ref_xrun cfg ops xinit CacheMap.empty MemCache.ref_init)
+  show XOut.base (Out.val (Model.MemCache.get (tick (xrun cfg xinit ops).s) k).2) = _ ∨
+    XOut.base (Out.val (Model.MemCache.get (tick (xrun cfg xinit ops).s) k).2) = _
+  rw [MemCache.get_out]
+  cases hl : lookup k (tick (xrun cfg xinit ops).s).store with
+  | none => left; rfl
+  | some e =>
+    dsimp only
+    by_cases hs : e.short = true
+    · left; simp [hs]
+    · right
+      have := href k e hl (by simpa using hs)
+      simp [hs, this]
+
+/-- **counters and hit / miss figures, with the cleanup task running**: after any history the two
+counters are exact, `hit_count ≤ get_count` (so `miss_count = get_count - hit_count` never
+wraps), and `stats()` reports exactly these five numbers. -/
+theorem memx_stats_exact (cfg : Config) (ops : List XOp) :
+    let x := xrun cfg xinit ops
+    x.s.count = (x.s.store.length : Int) ∧ x.s.bytes = (sumSize x.s.store : Int) ∧
+    x.m.hits ≤ x.m.gets ∧ 0 ≤ x.m.misses ∧
+    (xstep cfg x (.base .stats)).2 =
+      .stats x.s.store.length (sumSize x.s.store) x.m.gets x.m.hits ((x.m.gets - x.m.hits : Nat) : Int) := by
+  have h := CacheExt.inv_xrun cfg ops xinit MemCache.inv_init
+  have hm := CacheExt.metrics_xrun cfg ops xinit (Nat.le_refl 0)
+  refine ⟨h.count, h.bytes, hm, ?_, ?_⟩
+  · unfold Metrics.misses; omega
+  · show XOut.stats (xrun cfg xinit ops).s.count (xrun cfg xinit ops).s.bytes _ _ (Metrics.misses _) = _
+    rw [h.count, h.bytes]
+    unfold Metrics.misses
+    congr 1
+    omega
+
+/-- a `get` is recorded as a hit exactly when it returns a value, as a miss otherwise; `clear`
+zeroes the figures; nothing else changes them -/
+theorem memx_metrics_step (cfg : Config) (x : XState) (op : XOp) :
+    (xstep cfg x op).1.m =
+      match op with
+      | .base (.get _) =>
+        (match (xstep cfg x op).2 with
+         | .base (.val (some _)) => { gets := x.m.gets + 1, hits := x.m.hits + 1 }
+         | _ => { gets := x.m.gets + 1, hits := x.m.hits })
+      | .base .clear => { gets := 0, hits := 0 }
+      | _ => x.m := by
+  cases op with
+  | cleanup => rfl
+  | base op =>
+    cases op with
+    | get k =>
+      show x.m.record (Model.MemCache.get (tick x.s) k).2.isSome = _
+      show _ = match XOut.base (Out.val (Model.MemCache.get (tick x.s) k).2) with
+        | .base (.val (some _)) => _ | _ => _
+      cases (Model.MemCache.get (tick x.s) k).2 <;> rfl
+    | clear => rfl
+    | put k v vs => rfl
+    | putTtl k v short vs => rfl
+    | contains k => rfl
+    | remove k => rfl
+    | size => rfl
+    | stats => rfl
+
+/-- **the background cleanup task (`new_with_cleanup`, after the fix)**: after any history, a
+tick of the task leaves no ended-TTL entry behind, keeps both counters exact, so that `size()` and
+`stats()` equal what is retrievable — the full-strength "reported figures = retrievable" clause
+holds at every such point — and it changes no answer of any `get`. -/
+theorem mem_cleanup_size_eq_retrievable (cfg : Config) (ops : List XOp) (k : Key) :
+    let x := xrun cfg xinit ops
+    let x' := (xstep cfg x .cleanup).1
+    unswept x'.s.store = [] ∧
+    (xstep cfg x' (.base .size)).2 = .base (.num (retrievable x'.s.store).length) ∧
+    x'.s.bytes = (sumSize (retrievable x'.s.store) : Int) ∧
+    (retrievable x'.s.store).length = (retrievable x.s.store).length ∧
+    (xstep cfg x' (.base (.get k))).2 = (xstep cfg x (.base (.get k))).2 := by
+  have hi := CacheExt.inv_xrun cfg ops xinit MemCache.inv_init
+  have hi' := CacheExt.inv_cleanupTick hi
+  have hu := CacheExt.cleanupTick_unswept hi
+  have hall : retrievable (cleanupTick (xrun cfg xinit ops).s).store = (cleanupTick (xrun cfg xinit ops).s).store := by
+    unfold unswept at hu
+    unfold retrievable
+    rw [List.filter_eq_self]
+    intro p hp
+    have := (List.filter_eq_nil_iff.mp hu) p hp
+    simpa using this
+  refine ⟨hu, ?_, ?_, ?_, ?_⟩
+  · show XOut.base (Out.num (cleanupTick (xrun cfg xinit ops).s).count) =
+      XOut.base (Out.num ((retrievable (cleanupTick (xrun cfg xinit ops).s).store).length : Int))
+    rw [hall, hi'.count]
+  · show (cleanupTick (xrun cfg xinit ops).s).bytes =
+      (sumSize (retrievable (cleanupTick (xrun cfg xinit ops).s).store) : Int)
+    rw [hall, hi'.bytes]
+  · show (retrievable (cleanupTick (xrun cfg xinit ops).s).store).length = _
+    exact CacheExt.cleanupTick_retrievable_length hi
+  · show XOut.base (Out.val (Model.MemCache.get (tick (cleanupTick (xrun cfg xinit ops).s)) k).2) =
+      XOut.base (Out.val (Model.MemCache.get (tick (xrun cfg xinit ops).s) k).2)
+    have := CacheExt.cleanupTick_get hi k
+    rw [MemCache.get_out] at this ⊢
+    rw [MemCache.get_out] at this ⊢
+    exact congrArg (fun o => XOut.base (Out.val o)) this
+
+/-- **put_with_ttl over an entry whose TTL has ended** (or any other entry, or none): whatever
+is stored under the key, directly after the put the key holds exactly the new value with the new
+TTL class — one entry, counted once, its bytes replacing the old ones — and a `get` answers the
+new value (long TTL) or nothing (ended TTL). -/
+theorem mem_put_replaces (cfg : Config) (s : State) (hi : MemCache.Inv s) (k : Key) (v : Val)
+    (short : Bool) (vs : List Key) :
+    let s1 := preEvict cfg s vs
+    let s' := putCore cfg s k v short vs
+    lookup k s'.store = some (newEntry s1 v short) ∧
+    s'.count = (s'.store.length : Int) ∧ s'.bytes = (sumSize s'.store : Int) ∧
+    s'.count = s1.count + (if (lookup k s1.store).isSome then 0 else 1) ∧
+    (step cfg s' (.get k)).2 = .val (if short then none else some v) := by
+  have hi1 := MemCache.inv_preEvict cfg vs hi
+  have hi' := MemCache.inv_putCore cfg k v short vs hi
+  have hst : (putCore cfg s k v short vs).store = (k, newEntry (preEvict cfg s vs) v short) :: erase k (preEvict cfg s vs).store :=
+    MemCache.insertCounted_store _ _ _
+  have hl : lookup k (putCore cfg s k v short vs).store = some (newEntry (preEvict cfg s vs) v short) := by
+    rw [hst, CacheAssoc.lookup_cons_self]
+  refine ⟨hl, hi'.count, hi'.bytes, ?_, ?_⟩
+  · show (insertCounted (preEvict cfg s vs) k _).count = _
+    unfold insertCounted
+    cases hlk : lookup k (preEvict cfg s vs).store with
+    | some old => simp
+    | none => simp
+  · show Out.val (Model.MemCache.get (tick (putCore cfg s k v short vs)) k).2 = _
+    rw [MemCache.get_out]
+    show Out.val (match lookup k (putCore cfg s k v short vs).store with
+      | some e => if e.short then none else some e.val
+      | none => none) = _
+    rw [hl]
+    cases short <;> rfl
+
+end MemExt
+
 end Mem
 
 /-! ## On-disk cache -/
@@ -307,6 +505,68 @@ theorem disk_size_one_instance_partial (cfg : Config) (ops : List Op)
     | cons p t ih =>
       simp only [List.filter_cons, List.length_cons]
       cases p.2.short <;> simp <;> omega
+
+/-! ### extension: an ended TTL stays ended on the instance; hit / miss figures -/
+
+section DiskExt
+open Cascette.Model.CacheExt Cascette.Proofs.CacheExtDisk
+
+/-- **… and is not served after that — at any later time on the instance that wrote it.**
+After a put whose TTL has ended, from any state: ANY further operations by the same instance —
+gets, contains, removes, clears, size / stats, puts on other keys — that do not store the key
+again leave it a miss (and once a `get` has looked, the file is gone).  Strengthens
+`disk_not_served_after_ttl_partial` (the case `ops = []`).  A re-created instance is the finding
+`disk-ttl-across-instances`. -/
+theorem disk_not_served_after_ttl (cfg : Config) (s : State) (k : Key) (v : Val) (ops : List Op)
+    (h : ∀ op ∈ ops, revives k op = false) :
+    (step cfg (run cfg (putCore s k v true) ops) (.get k)).2 = .got .miss ∧
+    lookup k (step cfg (run cfg (putCore s k v true) ops) (.get k)).1.files = none ∧
+    (step cfg (run cfg (putCore s k v true) ops) (.contains k)).2 = .bool false := by
+  have hd := dead_run cfg ops _ (dead_putCore s k v) h
+  have hg := dead_get_out hd
+  refine ⟨?_, hg.2, ?_⟩
+  · show Out.got (Model.DiskCache.get _ k).2 = _
+    rw [hg.1]
+  · show Out.bool (contains (run cfg (putCore s k v true) ops) k) = _
+    unfold contains
+    rcases hd with ⟨e, he, hs⟩ | ⟨hi, _⟩
+    · rw [he]; simp [hs]
+    · rw [hi]
+
+/-- the hypothesis is met by a non-trivial history: other keys written, read and removed, the
+key itself probed and removed, a clear -/
+example :
+    (∀ op ∈ ([.put 2 [2], .get 2, .contains 1, .putTtl 3 [3] true, .remove 2, .get 1, .remove 1, .size, .clear,
+        .put 4 [4]] : List Op), revives 1 op = false) ∧
+    revives 1 (.put 1 [9]) = true ∧ revives 1 .reopen = true := by decide
+
+/-- the old statement is the instance `ops = []` -/
+theorem disk_not_served_after_ttl_partial' (cfg : Config) (s : State) (k : Key) (v : Val) :
+    (step cfg (putCore s k v true) (.get k)).2 = .got .miss :=
+  (disk_not_served_after_ttl cfg s k v [] (fun _ h => by cases h)).1
+
+/-- **hit / miss figures of the disk cache**: for every history (re-creations included) the
+extended model's state is the core model's, `hit_count ≤ get_count`, and `stats()` reports the
+exact counters and these figures. -/
+theorem diskx_stats_exact (cfg : Config) (ops : List Op) :
+    let x := Disk.xrun cfg Disk.xinit ops
+    x.s = run cfg init ops ∧ x.m.hits ≤ x.m.gets ∧ 0 ≤ x.m.misses ∧
+    (Disk.xstep cfg x .stats).2 =
+      .stats x.s.index.length (sumBy DEntry.size x.s.index) x.m.gets x.m.hits ((x.m.gets - x.m.hits : Nat) : Int) := by
+  have hs := dxrun_s cfg ops Disk.xinit
+  have hm := dmetrics_xrun cfg ops Disk.xinit (Nat.le_refl 0)
+  have hi := DiskCache.dinv_run cfg ops init DiskCache.dinv_init
+  refine ⟨hs, hm, ?_, ?_⟩
+  · unfold Metrics.misses; omega
+  · show Disk.XOut.stats (Disk.xrun cfg Disk.xinit ops).s.count (Disk.xrun cfg Disk.xinit ops).s.bytes _ _ (Metrics.misses _) = _
+    rw [hs]
+    show Disk.XOut.stats (run cfg init ops).count (run cfg init ops).bytes _ _ _ = _
+    rw [hi.count, hi.bytes]
+    unfold Metrics.misses
+    congr 1
+    omega
+
+end DiskExt
 
 end Disk
 
